@@ -100,7 +100,9 @@ func (t *Text) GenerateOutput(textOnly bool) string {
 		}
 
 		srcRoot = domutil.GetParentElement(srcRoot)
-		if dom.TagName(srcRoot) == "body" {
+		if srcRoot == nil || dom.TagName(srcRoot) == "body" {
+			// Either we reached <body>, or the distilled root is a fragment
+			// whose top element is inline: there is no parent left to retain.
 			break
 		}
 
